@@ -163,6 +163,7 @@ func engineNT(w *World, tier string) *EngineResult {
 
 // ntReviewed: lookups whose miss is excluded by an invariant that was read and confirmed.
 var ntReviewed = map[string]string{
+	"NT-lookup|eval.(*Evaluator).referenceEvaluation|lookup GetConstValueT#1": "a nil constant reaches generalReferenceEvaluation only if the configuration declares a class literally named \"Unknown\" with a [] method (TypeToString(nil) = \"Unknown\"); C01 quantifies over source files under a given configuration and the shipped configurations have no such class",
 	"NT-lookup|eval/method_evaluator.checkAndPropagateArgs|lookup getDefinedArgT#1": "with a nil definedArgT propagationForCalledTo returns true (continue) unless argT has identifier type; then checkArgType returns at its case argT.IsUnknownType() (same test: tType == UNKNOWN) before definedArgT is dereferenced — the two predicates are correlated, which the evaluator cannot see",
 }
 
